@@ -10,6 +10,7 @@ import (
 // Key is {client_addr}_{client_port}_{dest_addr}_{dest_port}_{channel_id}_{class_id}_{method_id}
 type requestResponseMatcher struct {
 	openMessagesMap *sync.Map
+	registerLock    sync.Mutex
 }
 
 func createResponseRequestMatcher() api.RequestResponseMatcher {
@@ -59,6 +60,8 @@ func (matcher *requestResponseMatcher) registerRequest(ident string, method stri
 		},
 	}
 
+	matcher.registerLock.Lock()
+	defer matcher.registerLock.Unlock()
 	if response, found := matcher.openMessagesMap.LoadAndDelete(ident); found {
 		// Type assertion always succeeds because all of the map's values are of api.GenericMessage type
 		responseAMQPMessage := response.(*api.GenericMessage)
@@ -86,6 +89,8 @@ func (matcher *requestResponseMatcher) registerResponse(ident string, method str
 		},
 	}
 
+	matcher.registerLock.Lock()
+	defer matcher.registerLock.Unlock()
 	if request, found := matcher.openMessagesMap.LoadAndDelete(ident); found {
 		// Type assertion always succeeds because all of the map's values are of api.GenericMessage type
 		requestAMQPMessage := request.(*api.GenericMessage)
